@@ -1,6 +1,9 @@
 import Hgxv.Proofs.C08Bfs
 import Hgxv.Proofs.C08Hist
 import Hgxv.Proofs.C08Nbrs
+import Hgxv.Proofs.C08LinkC01
+import Hgxv.Proofs.C08LinkDeg
+import Hgxv.Proofs.C08LinkHist
 /-! # C08 — degrees and connected components equal their combinatorial definitions
 
 Property theorems about the model `Hgxv/Model/C08.lean` (specification vocabulary `Adj`, `Reach`, `WF`, `Disj` in
@@ -440,3 +443,472 @@ example : (∀ op ∈ exProgram, op.Valid) ∧ Hist.run [{}] exProgram = some
   intro op hop
   simp only [exProgram, List.mem_cons, List.mem_nil_iff, or_false] at hop
   rcases hop with h | h | h | h | h | h | h | h | h <;> subst h <;> simp [Hist.Op.Valid]
+
+/-! ## Links to the full container models (C01 … C04)
+
+The theorems above take LISTINGS.  The four container classes have complete models with refinement proofs for every
+history of public calls (`Hgxv/Model/C01 … C04.lean`: concrete id-indexed `Store`, abstract `Spec`, `abs`, class invariant,
+`answer` / query functions).  `Hgxv/Proofs/C08LinkC01.lean`, `C08LinkDeg.lean`, `C08LinkHist.lean` compose the two, and the
+corollaries below quantify over EVERY history: `cs` is any finite list of well-formed public calls on `k` slots
+(`C01.Cmd`: constructor, `copy`, the 18 mutating calls, accepted or rejected), `s` the object in slot `i` afterwards.
+No hypothesis on the content is left: distinct nodes, distinct canonical hyperedges over nodes of the object, incidence
+sound and complete are discharged from the class invariant (`C01.run_inv` etc.).
+
+Vocabulary (`namespace C08.Link`): `nodesOf s` / `edgesOf s` = what `get_nodes()` / `get_edges()` of the object list;
+`toFilter f` = the `order=` / `size=` keywords of a C08 filter; `componentsObj s f` / `bfsFromObj s f u` = the code of
+`connected_components` / `_bfs` run against the GETTERS of the object (`get_nodes`, `check_node`, `get_neighbors`);
+`C01.abs s` = the abstract hypergraph of the history (`C08_link_listing`): node ↦ metadata, node set ↦ (weight,
+metadata); `Reach (keys (abs s).edges) f` is the property's reachability relation on that abstract content. -/
+open C08.Link
+
+/-- **What the object lists, for every history.**  `get_nodes()` / `get_edges()` of the object are `nodesOf s` /
+`edgesOf s`; the abstract run of the same history has `C01.abs s` in the same slot and answers EVERY getter identically;
+the two listings are the key lists of that abstract hypergraph, and they satisfy every hypothesis used by the C08
+theorems: no node twice, no hyperedge twice, every hyperedge a duplicate-free sorted tuple of nodes of the object. -/
+theorem C08_link_listing (k : Nat) (cs : List C01.Cmd) (hwf : ∀ c ∈ cs, c.WF) (i : Nat) (s : C01.Store)
+    (hs : (C01.run (C01.init k) cs)[i]? = some s) :
+    C01.answer s .nodes = .nats (nodesOf s) ∧ C01.answer s (.edges {}) = .edges (edgesOf s) ∧
+    (C01.Spec.run (C01.Spec.init k) cs)[i]? = some (C01.abs s) ∧
+    (∀ q, C01.answer s q = C01.Spec.answer (C01.abs s) q) ∧
+    nodesOf s = AL.keys (C01.abs s).nodes ∧ edgesOf s = AL.keys (C01.abs s).edges ∧
+    (nodesOf s).Nodup ∧ (edgesOf s).Nodup ∧ WF (nodesOf s) (edgesOf s) ∧
+    (∀ e ∈ edgesOf s, e.Nodup ∧ e.Pairwise (· ≤ ·)) := by
+  have h := C08.Link.inv_of_history k cs hwf i s hs
+  have hsim := (C01.run_sim cs _ _ hwf (C01.init_sim k)).1
+  obtain ⟨w1, w2, w3, w4, w5⟩ := listing_wf h
+  refine ⟨answer_nodes s, answer_edges s, ?_, C01.answer_abs s h, (listing_abs h).1, (listing_abs h).2, w1, w2, w3,
+    fun e he => ⟨w4 e he, w5 e he⟩⟩
+  rw [hsim, List.getElem?_map, hs]; rfl
+
+/-- **Every getter C08 reads, for every history.**  With the filter `f` handed over as keywords, the object answers
+`get_incident_edges`, `get_neighbors`, `degree`, `degree_sequence`, `degree_distribution`, `isolated_nodes`,
+`is_isolated` exactly as the C08 functions compute them from the two listings - same values, same listing order, rejected
+(`rej`: the call raises) exactly for a node that is not in the hypergraph. -/
+theorem C08_link_getters (k : Nat) (cs : List C01.Cmd) (hwf : ∀ c ∈ cs, c.WF) (i : Nat) (s : C01.Store)
+    (hs : (C01.run (C01.init k) cs)[i]? = some s) (f : Filt) (n : Nat) :
+    C01.answer s (.incident n (toFilter f)) =
+      (if n ∈ nodesOf s then .edges (incident (edgesOf s) n f) else .rej) ∧
+    C01.answer s (.neighbors n (toFilter f)) =
+      (if n ∈ nodesOf s then .nats (neighbors (edgesOf s) f n) else .rej) ∧
+    C01.answer s (.degree n (toFilter f)) =
+      (match degree? (nodesOf s) (edgesOf s) n f with
+        | some d => .int d
+        | none => .rej) ∧
+    C01.answer s (.degreeSeq (toFilter f)) =
+      .pairs ((degreeSeq (nodesOf s) (edgesOf s) f).map fun p => ((p.1 : Int), p.2)) ∧
+    C01.answer s (.degreeDist (toFilter f)) =
+      .pairs ((degreeDist (nodesOf s) (edgesOf s) f).map fun p => ((p.1 : Int), p.2)) ∧
+    C01.answer s (.isolated (toFilter f)) = .nats (isolatedNodes (nodesOf s) (edgesOf s) f) ∧
+    C01.answer s (.isIsolated n (toFilter f)) =
+      (match isIsolated? (nodesOf s) (edgesOf s) f n with
+        | some b => .bool b
+        | none => .rej) := by
+  have h := C08.Link.inv_of_history k cs hwf i s hs
+  exact ⟨answer_incident h n f, answer_neighbors h n f, answer_degree h n f, answer_degreeSeq h f,
+    answer_degreeDist h f, answer_isolated h f, answer_isIsolated h n f⟩
+
+/-- **Degrees, for every history** (`C08_degree`, `C08_handshake`, `C08_seq_dist` composed with C01).  `K` = the node
+sets of the abstract hypergraph of the history.  The degree the object answers for a node `n` is the number of DISTINCT
+members of `K` that pass the filter and contain `n` (the length of any duplicate-free listing `L` of exactly those); a
+node that is not in the hypergraph is rejected; `degree_sequence` lists every node once, in `get_nodes()` order, with the
+degree the object answers for it; those numbers sum to the total size of the filtered members of `K`; and
+`degree_distribution` is their histogram. -/
+theorem C08_link_degree (k : Nat) (cs : List C01.Cmd) (hwf : ∀ c ∈ cs, c.WF) (i : Nat) (s : C01.Store)
+    (hs : (C01.run (C01.init k) cs)[i]? = some s) (f : Filt) :
+    let K := AL.keys (C01.abs s).edges
+    (∀ n ∈ nodesOf s, ∀ L : List Edge, L.Nodup →
+        (∀ e, e ∈ L ↔ e ∈ K ∧ passes f e.length = true ∧ n ∈ e) →
+        C01.answer s (.degree n (toFilter f)) = .int L.length) ∧
+    (∀ n, n ∉ nodesOf s → C01.answer s (.degree n (toFilter f)) = .rej) ∧
+    (∃ seq : List (Nat × Nat),
+        C01.answer s (.degreeSeq (toFilter f)) = .pairs (seq.map fun p => ((p.1 : Int), p.2)) ∧
+        seq.map (·.1) = nodesOf s ∧
+        (∀ p ∈ seq, C01.answer s (.degree p.1 (toFilter f)) = .int p.2) ∧
+        (seq.map (·.2)).sum = ((K.filter (fun e => passes f e.length)).map List.length).sum ∧
+        ∃ dist : List (Nat × Nat),
+          C01.answer s (.degreeDist (toFilter f)) = .pairs (dist.map fun p => ((p.1 : Int), p.2)) ∧
+          (dist.map (·.1)).Nodup ∧ (dist.map (·.2)).sum = (nodesOf s).length ∧
+          ∀ d, lookup d dist = (let c := (seq.map (·.2)).count d; if c = 0 then none else some c)) := by
+  intro K
+  have h := C08.Link.inv_of_history k cs hwf i s hs
+  have hK : edgesOf s = K := (listing_abs h).2
+  obtain ⟨w1, w2, w3, w4, _⟩ := listing_wf h
+  have hdeg : ∀ n ∈ nodesOf s, C01.answer s (.degree n (toFilter f)) = .int (deg (edgesOf s) n f) := by
+    intro n hn
+    rw [answer_degree h n f]
+    simp only [degree?, degreeG?, hn, if_true]
+    rfl
+  refine ⟨?_, ?_, ?_⟩
+  · intro n hn L hL hmem
+    have := C08_degree id (nodesOf s) (edgesOf s) w2 n hn f L hL (by rw [hK]; exact hmem)
+    rw [answer_degree h n f]
+    show (match degreeG? id (nodesOf s) (edgesOf s) n f with
+      | some d => C01.Ans.int d
+      | none => C01.Ans.rej) = _
+    rw [this]
+  · intro n hn
+    rw [answer_degree h n f]
+    simp only [degree?, degreeG?, hn, if_false]
+  · obtain ⟨q1, q2, q3, q4⟩ := C08_seq_dist id (nodesOf s) (edgesOf s) f
+    have hsnd : (degreeSeq (nodesOf s) (edgesOf s) f).map (·.2) = (nodesOf s).map (fun n => deg (edgesOf s) n f) := by
+      show (degreeSeqG id (nodesOf s) (edgesOf s) f).map (·.2) = _
+      rw [q1, List.map_map]; rfl
+    refine ⟨degreeSeq (nodesOf s) (edgesOf s) f, answer_degreeSeq h f, ?_, ?_, ?_,
+      degreeDist (nodesOf s) (edgesOf s) f, answer_degreeDist h f, q3, q4, ?_⟩
+    · show (degreeSeqG id (nodesOf s) (edgesOf s) f).map (·.1) = _
+      rw [q1, List.map_map]
+      exact List.map_id' _
+    · intro p hp
+      have hp' : p ∈ degreeSeqG id (nodesOf s) (edgesOf s) f := hp
+      rw [q1] at hp'
+      obtain ⟨n, hn, rfl⟩ := List.mem_map.mp hp'
+      exact hdeg n hn
+    · rw [hsnd, ← hK]
+      exact C08_handshake id (nodesOf s) (edgesOf s) w1 (fun e he => ⟨w4 e he, w3 e he⟩) f
+    · intro d
+      rw [hsnd]
+      exact q2 d
+
+/-- **Connected components, for every history** (`C08_bfs`, `C08_partition` composed with C01).  The loop of
+`connected_components(order|size)` run against `get_nodes()` / `get_neighbors()` of the object returns the partition of
+its node set into the classes of the reachability relation generated by the filtered node sets `K` of the abstract
+hypergraph of the history: the components cover the nodes and contain nothing else, are pairwise disjoint, non-empty,
+repetition-free, each one is the class of each of its members; `_bfs(hg, u, order|size)` returns the class of `u`, each
+member once, and rejects a `u` that is not in the hypergraph.  (First conjunct: that loop IS the C08 function of the two
+listings.) -/
+theorem C08_link_components (k : Nat) (cs : List C01.Cmd) (hwf : ∀ c ∈ cs, c.WF) (i : Nat) (s : C01.Store)
+    (hs : (C01.run (C01.init k) cs)[i]? = some s) (f : Filt) :
+    let K := AL.keys (C01.abs s).edges
+    componentsObj s f = components (nodesOf s) (edgesOf s) f ∧
+    (∀ n ∈ nodesOf s, ∃ c ∈ componentsObj s f, n ∈ c) ∧
+    (∀ c ∈ componentsObj s f, ∀ x ∈ c, x ∈ nodesOf s) ∧
+    (componentsObj s f).Pairwise Disj ∧
+    (∀ c ∈ componentsObj s f, c ≠ [] ∧ c.Nodup) ∧
+    (∀ c ∈ componentsObj s f, ∀ u ∈ c, ∀ v, v ∈ c ↔ Reach K f u v) ∧
+    (∀ u, (u ∈ nodesOf s → ∃ c, bfsFromObj s f u = some c ∧ c.Nodup ∧ ∀ v, v ∈ c ↔ Reach K f u v) ∧
+          (u ∉ nodesOf s → bfsFromObj s f u = none)) := by
+  intro K
+  have h := C08.Link.inv_of_history k cs hwf i s hs
+  have hK : edgesOf s = K := (listing_abs h).2
+  have hwf' : WF (nodesOf s) (edgesOf s) := (listing_wf h).2.2.1
+  obtain ⟨p1, p2, p3, p4, p5⟩ := C08_partition (nodesOf s) (edgesOf s) f hwf'
+  rw [componentsObj_eq h f]
+  refine ⟨rfl, p1, p2, p3, p4, by rw [← hK]; exact p5, ?_⟩
+  intro u
+  rw [bfsFromObj_eq h f u, ← hK]
+  exact C08_bfs (nodesOf s) (edgesOf s) f u
+
+/-- **The wrappers of `utils/cc.py`, for every history** (`C08_consistent`, `C08_count`, `C08_isolated` composed with
+C01).  With `comps` = what `connected_components(order|size)` returns on the object: `is_connected`
+(`len(comps) == 1`) holds iff the hypergraph has a node and all its nodes are mutually reachable; `len(comps)` is the
+number of reachability classes (the length of every system of representatives); `node_connected_component(n)` is, as a
+set, the member of `comps` containing `n`; `max(comps, key=len)` is a member of maximal length (and raises on the empty
+hypergraph); `is_isolated(n)` as the object answers it holds iff `[n]` is a component, iff no filtered abstract hyperedge
+of size ≥ 2 contains `n`; `isolated_nodes` lists exactly those nodes.  The SAME filter everywhere. -/
+theorem C08_link_wrappers (k : Nat) (cs : List C01.Cmd) (hwf : ∀ c ∈ cs, c.WF) (i : Nat) (s : C01.Store)
+    (hs : (C01.run (C01.init k) cs)[i]? = some s) (f : Filt) :
+    let K := AL.keys (C01.abs s).edges
+    let comps := componentsObj s f
+    ((comps.length == 1) = true ↔ nodesOf s ≠ [] ∧ ∀ u ∈ nodesOf s, ∀ v ∈ nodesOf s, Reach K f u v) ∧
+    (∀ R : List Nat, (∀ r ∈ R, r ∈ nodesOf s) → R.Pairwise (fun a b => ¬ Reach K f a b) →
+        (∀ n ∈ nodesOf s, ∃ r ∈ R, Reach K f r n) → comps.length = R.length) ∧
+    (∀ n ∈ nodesOf s, ∃ c' c, bfsFromObj s f n = some c' ∧ c ∈ comps ∧ n ∈ c ∧ c.Perm c') ∧
+    (nodesOf s ≠ [] → ∃ c ∈ comps, maxByLen comps = some c ∧ ∀ d ∈ comps, d.length ≤ c.length) ∧
+    (nodesOf s = [] → comps = [] ∧ maxByLen comps = none) ∧
+    (∀ n ∈ nodesOf s,
+        (C01.answer s (.isIsolated n (toFilter f)) = .bool true ↔ [n] ∈ comps) ∧
+        (C01.answer s (.isIsolated n (toFilter f)) = .bool true ↔
+          ∀ e ∈ K, passes f e.length = true → n ∈ e → e.length < 2) ∧
+        (∃ L, C01.answer s (.isolated (toFilter f)) = .nats L ∧
+          (n ∈ L ↔ C01.answer s (.isIsolated n (toFilter f)) = .bool true))) := by
+  intro K comps
+  have h := C08.Link.inv_of_history k cs hwf i s hs
+  have hK : edgesOf s = K := (listing_abs h).2
+  have hc : comps = components (nodesOf s) (edgesOf s) f := componentsObj_eq h f
+  obtain ⟨_, c2, c3, c4, _, c6, c7⟩ := C08_consistent (nodesOf s) (edgesOf s) f
+  have hiso : ∀ n ∈ nodesOf s, (C01.answer s (.isIsolated n (toFilter f)) = .bool true ↔
+      isIsolated? (nodesOf s) (edgesOf s) f n = some true) := by
+    intro n hn
+    rw [answer_isIsolated h n f]
+    simp only [isIsolated?, hn, if_true, Option.some.injEq, C01.Ans.bool.injEq]
+  refine ⟨?_, ?_, ?_, ?_, ?_, ?_⟩
+  · rw [hc, ← hK]; exact c3
+  · intro R hR hp hcov
+    rw [hc]
+    exact C08_count (nodesOf s) (edgesOf s) f R hR (by rw [hK]; exact hp) (by rw [hK]; exact hcov)
+  · intro n hn
+    rw [hc, bfsFromObj_eq h f n]
+    exact c4 n hn
+  · intro hne
+    rw [hc]
+    obtain ⟨c, hcm, hmax, _, hle⟩ := c6 hne
+    exact ⟨c, hcm, hmax, hle⟩
+  · intro hnil
+    rw [hc]
+    obtain ⟨a1, a2, _⟩ := c7 hnil
+    exact ⟨a1, a2⟩
+  · intro n hn
+    obtain ⟨i1, _, i3, i4⟩ := C08_isolated (nodesOf s) (edgesOf s) f n hn
+    refine ⟨?_, ?_, isolatedNodes (nodesOf s) (edgesOf s) f, answer_isolated h f, ?_⟩
+    · rw [hiso n hn, hc]; exact i3
+    · rw [hiso n hn, ← hK]; exact i1 (listing_wf h).2.2.2.1
+    · rw [hiso n hn]; exact i4
+
+/-- non-vacuity: a history on two slots with a temporary hyperedge (an id gap), a `copy`, mutations of the original and
+of the copy afterwards (`remove_node(keep_edges=True)` on the copy), an isolated node, a singleton hyperedge and a
+batched node removal.  Slot 0 ends with the listings `exNodes` / `exEdges` used above. -/
+def C08.Link.exHistory : List C01.Cmd :=
+  [.on 0 (.addEdge [1, 0] none none), .on 0 (.addEdge [9, 8] none none), .on 0 (.addEdge [3, 1, 2] none none),
+   .on 0 (.removeEdge [8, 9]), .on 0 (.addEdge [4, 3] none none), .copy 0 1, .on 1 (.removeNode 1 true),
+   .on 0 (.addNode 5 none), .on 0 (.addEdge [6] none none), .on 0 (.removeNodes [8, 9] false)]
+
+theorem C08.Link.exHistory_wf : ∀ c ∈ C08.Link.exHistory, c.WF := by
+  intro c hc
+  simp only [C08.Link.exHistory, List.mem_cons, List.not_mem_nil, or_false] at hc
+  rcases hc with h | h | h | h | h | h | h | h | h | h <;> subst h <;> simp [C01.Cmd.WF, C01.Op.WF]
+
+example : ((C01.run (C01.init 2) exHistory)[0]?.map fun s => (nodesOf s, edgesOf s)) = some (exNodes, exEdges) ∧
+    ((C01.run (C01.init 2) exHistory)[1]?.map fun s => (nodesOf s, edgesOf s))
+      = some ([0, 8, 9, 2, 3, 4], [[3, 4], [0], [2, 3]]) := by decide
+
+/-- the object in slot 0 of the example history, by its listings -/
+theorem C08.Link.exHistory_slot0 (s : C01.Store) (hs : (C01.run (C01.init 2) exHistory)[0]? = some s) :
+    nodesOf s = exNodes ∧ edgesOf s = exEdges := by
+  have h : ((C01.run (C01.init 2) exHistory)[0]?.map fun s => (nodesOf s, edgesOf s)) = some (exNodes, exEdges) := by
+    decide
+  rw [hs] at h
+  simpa using h
+
+-- the getters of that object, asked directly: degree 2 / 1, neighbours under `size=2`, rejected non-node, isolated nodes
+example : ∃ s, (C01.run (C01.init 2) exHistory)[0]? = some s ∧
+    C01.answer s (.degree 1 (toFilter .none)) = .int 2 ∧ C01.answer s (.degree 1 (toFilter (.size 2))) = .int 1 ∧
+    C01.answer s (.neighbors 3 (toFilter (.size 2))) = .nats [4] ∧ C01.answer s (.degree 8 (toFilter .none)) = .rej ∧
+    C01.answer s (.degreeDist (toFilter (.size 2))) = .pairs [(1, 4), (0, 3)] ∧
+    C01.answer s (.isolated (toFilter (.order 2))) = .nats [0, 4, 5, 6] :=
+  ⟨_, rfl, by decide⟩
+
+-- connected components computed over the getters of that object, three filters
+set_option maxRecDepth 4000 in
+example : ∃ s, (C01.run (C01.init 2) exHistory)[0]? = some s ∧
+    componentsObj s .none = [[4, 3, 2, 1, 0], [5], [6]] ∧
+    componentsObj s (.size 2) = [[1, 0], [2], [4, 3], [5], [6]] ∧
+    bfsFromObj s (.size 3) 1 = some [3, 2, 1] ∧ bfsFromObj s .none 8 = none := by
+  have hex : ∃ s, (C01.run (C01.init 2) exHistory)[0]? = some s := ⟨_, rfl⟩
+  obtain ⟨s, hs'⟩ := hex
+  refine ⟨s, hs', ?_⟩
+  have h := C08.Link.inv_of_history 2 exHistory exHistory_wf 0 s hs'
+  obtain ⟨hn, he⟩ := exHistory_slot0 s hs'
+  rw [componentsObj_eq h, componentsObj_eq h, bfsFromObj_eq h, bfsFromObj_eq h, hn, he]
+  c08_eval
+
+/-! ### degrees of the other three containers -/
+
+/-- **`DirectedHypergraph`, every history** (`C08_degree_directed`, `C08_degree`, `C08_handshake_directed` composed with
+C02).  `cs`: any finite list of well-formed constructor calls, copies and public mutating calls; `s` the object in a slot
+afterwards; `f` a filter the getters accept, `g` its C08 reading.  The listings `N`, `K` of the object are the node list
+and the (source tuple, target tuple) key list of its abstract content; they satisfy the hypotheses of the C08 theorems
+(distinct nodes, distinct keys, duplicate-free DISJOINT sides over nodes of the object); `degree(n)` as the object
+answers it is the number of distinct filtered keys having `n` on either side; a non-node is rejected; `degree_sequence`
+is the per-node view, `degree_distribution` its histogram; the degrees sum to the total size `|sources| + |targets|` of the filtered keys. -/
+theorem C08_link_degree_C02 (cs : List C02.Cmd) (hcs : ∀ c ∈ cs, c.WF) (slot : Nat) (s : C02.Store)
+    (hs : AL.get? (C02.runCmds [] cs) slot = some s) (f : C02.Filt) (g : Filt) (hg : ofFilt02 f = some g) :
+    let N := nodes02 s
+    let K := keys02 s
+    N = AL.keys (C02.abs s).nodes ∧ K = AL.keys (C02.abs s).edges ∧
+    N.Nodup ∧ K.Nodup ∧ (∀ k ∈ K, (k.1 ++ k.2).Nodup ∧ ∀ x ∈ k.1 ++ k.2, x ∈ N) ∧
+    (∀ n ∈ N, ∀ L : List (List Nat × List Nat), L.Nodup →
+        (∀ k, k ∈ L ↔ k ∈ K ∧ passes g (k.1.length + k.2.length) = true ∧ (n ∈ k.1 ∨ n ∈ k.2)) →
+        C02.degree s n f = some L.length) ∧
+    (∀ n, n ∉ N → C02.degree s n f = none) ∧
+    C02.degreeSeq s f = some (N.map fun n => (n, dirDeg K n g)) ∧
+    (∀ n ∈ N, C02.degree s n f = some (dirDeg K n g)) ∧
+    (∃ dist, C02.degreeDist s f = some dist ∧
+      ∀ d, AL.get? dist d = (let c := (N.map (fun n => dirDeg K n g)).count d; if c = 0 then none else some c)) ∧
+    (N.map (fun n => dirDeg K n g)).sum =
+      ((K.filter (fun k => passes g (k.1.length + k.2.length))).map (fun k => k.1.length + k.2.length)).sum := by
+  intro N K
+  have h : C02.Inv s := C02.runCmds_inv [] cs hcs (fun _ _ h => by simp [AL.get?] at h) slot s hs
+  obtain ⟨l1, l2, l3, l4⟩ := listing02 h
+  have hd : ∀ n, dirDeg (keys02 s) n (toOrder g) = dirDeg (keys02 s) n g := by
+    intro n; simp only [dirDeg, passes_toOrder]
+  refine ⟨(C02.abs_nodes_keys s).symm, (C02.abs_edges_keys s).symm, l1, l2, l3, ?_, ?_, ?_, ?_, ?_, ?_⟩
+  · intro n hn L hL hmem
+    rw [degree02 h n f g hg, if_pos hn, C08_degree_directed K l4 n g]
+    have := C08_degree dirMembers N K l2 n hn g L hL (by
+      intro k
+      rw [hmem k]
+      simp only [dirMembers, List.length_append, List.mem_append])
+    simpa [degreeG?, hn] using this
+  · intro n hn
+    rw [degree02 h n f g hg, if_neg hn]
+  · rw [degreeSeq02 h f g hg]
+    simp only [dirDegreeSeq, hd]
+    rfl
+  · intro n hn
+    rw [degree02 h n f g hg, if_pos hn]
+  · obtain ⟨dist, hd1, hd2⟩ := degreeDist02 h f g hg
+    refine ⟨dist, hd1, fun d => ?_⟩
+    rw [hd2 d]
+    exact (C08_seq_dist_directed N K g).2 d
+  · exact C08_handshake_directed N K l1 l3 g
+
+/-- non-vacuity: constructor with two hyperedges, a re-insertion in permuted order, a temporary hyperedge, a copy mutated
+afterwards -/
+def C08.Link.exHistory02 : List C02.Cmd :=
+  [.new 0 false none none (some [.ofLists [2, 1] [3], .ofLists [3] [4, 5]]) none none,
+   .op 0 (.addEdge (.ofLists [1, 2] [3]) none none), .op 0 (.addEdge (.ofLists [7] [8]) none none),
+   .op 0 (.removeEdge (.ofLists [7] [8])), .copy 0 1, .op 1 (.removeNode 3 false),
+   .op 0 (.addEdge (.ofLists [5] [1]) none none)]
+
+example : (∀ c ∈ exHistory02, c.WF) ∧ (AL.get? (C02.runCmds [] exHistory02) 0).isSome = true ∧
+    (let s := (AL.get? (C02.runCmds [] exHistory02) 0).getD {}
+     nodes02 s = [1, 2, 3, 4, 5, 7, 8] ∧ keys02 s = [([1, 2], [3]), ([3], [4, 5]), ([5], [1])] ∧
+     C02.degree s 3 .all = some 2 ∧ C02.degree s 3 (.size 3) = some 2 ∧ C02.degree s 1 (.order 1) = some 1 ∧
+     C02.degree s 6 .all = none ∧
+     C02.degreeSeq s (.size 2) = some [(1, 1), (2, 0), (3, 0), (4, 0), (5, 1), (7, 0), (8, 0)]) ∧
+    ofFilt02 (.size 3) = some (.size 3) :=
+  ⟨C02.cmds_WF_of_ok _ (by decide), by decide, by decide, rfl⟩
+
+/-- **`TemporalHypergraph`, every history** (`C08_degree`, `C08_handshake`, `C08_seq_dist` composed with C03).  Records are
+`(time, node tuple)`; `s` is any object reachable by well-formed public calls; `(os03 f).1`, `(os03 f).2` are the two
+keywords of the filter.  The listings are those of the abstract map of the history and satisfy the hypotheses; `degree(n)`
+as the object answers it is the number of distinct filtered RECORDS containing `n` - a hyperedge present at two times
+counts twice -; a non-node is rejected; `degree_sequence` is the per-node view, `degree_distribution` the histogram
+(`V.degreeSeq` / `V.degreeDist` are what the getters of the object answer); the degrees sum to the total size of the
+filtered records. -/
+theorem C08_link_degree_C03 (s : C03.Store) (hr : C03.Reachable s) (f : Filt) :
+    let N := nodes03 s
+    let K := keys03 s
+    N = AL.keys (C03.abs s).nodes ∧ K = AL.keys (C03.abs s).recs ∧
+    N.Nodup ∧ K.Nodup ∧ (∀ k ∈ K, k.2.Nodup ∧ ∀ x ∈ k.2, x ∈ N) ∧
+    (∀ n ∈ N, ∀ L : List (Nat × List Nat), L.Nodup →
+        (∀ k, k ∈ L ↔ k ∈ K ∧ passes f k.2.length = true ∧ n ∈ k.2) →
+        C03.degree s n (os03 f).1 (os03 f).2 = some L.length) ∧
+    (∀ n, n ∉ N → C03.degree s n (os03 f).1 (os03 f).2 = none) ∧
+    C03.V.degreeSeq (C03.view s) (os03 f).1 (os03 f).2
+      = some (N.map fun n => (n, degG (fun k : Nat × List Nat => k.2) K n f)) ∧
+    (∃ dist : List (Nat × Nat),
+      C03.V.degreeDist (C03.view s) (os03 f).1 (os03 f).2 = some (dist.map fun p => ((p.1 : Int), p.2)) ∧
+      (dist.map (·.1)).Nodup ∧ (dist.map (·.2)).sum = N.length ∧
+      ∀ d, lookup d dist = (let c := (N.map (fun n => degG (fun k : Nat × List Nat => k.2) K n f)).count d
+                            if c = 0 then none else some c)) ∧
+    (N.map (fun n => degG (fun k : Nat × List Nat => k.2) K n f)).sum =
+      ((K.filter (fun k => passes f k.2.length)).map (fun k => k.2.length)).sum := by
+  intro N K
+  have h := C03.reachable_inv hr
+  obtain ⟨l1, l2, l3⟩ := listing03 h
+  refine ⟨rfl, (C03.keys_records s).symm, l1, l2, l3, ?_, ?_, ?_, ?_, ?_⟩
+  · intro n hn L hL hmem
+    rw [degree03 h n f]
+    exact C08_degree (fun k : Nat × List Nat => k.2) N K l2 n hn f L hL hmem
+  · intro n hn
+    rw [degree03 h n f]
+    exact C08_degree_absent _ N K n hn f
+  · rw [degreeSeq03 h f]
+    simp only [degreeSeqG, degG_toOrder]
+    rfl
+  · obtain ⟨_, q2, q3, q4⟩ := C08_seq_dist (fun k : Nat × List Nat => k.2) N K f
+    exact ⟨_, degreeDist03 h f, q3, q4, q2⟩
+  · exact C08_handshake (fun k : Nat × List Nat => k.2) N K l1 l3 f
+
+/-- non-vacuity: the hyperedge `{1,2}` at times 0 and 3 (two records), a temporary record, a copy -/
+def C08.Link.exHistory03 : List C03.Op :=
+  [.new 0 false, .on 0 (.addEdge [2, 1] (.int 0) none none), .on 0 (.addEdge [1, 2] (.int 3) none none),
+   .on 0 (.addEdge [9, 1] (.int 1) none none), .on 0 (.removeEdge [1, 9] (.int 1)),
+   .on 0 (.addEdge [3, 1, 2] (.int 3) none none), .copy 0 1, .on 1 (.removeNode 1 false)]
+
+example : (∀ op ∈ exHistory03, op.WF) ∧
+    ((AL.get? (C03.run [] exHistory03) 0).map fun s => (nodes03 s, keys03 s, C03.degree s 1 none none,
+      C03.degree s 1 (os03 (.size 2)).1 (os03 (.size 2)).2, C03.degree s 7 none none)) =
+    some ([1, 2, 9, 3], [(0, [1, 2]), (3, [1, 2]), (3, [1, 2, 3])], some 3, some 2, none) := by decide
+
+/-- **`MultiplexHypergraph`, every history** (same composition with C04).  Records are `(node tuple, layer)`; the same
+node set in two layers counts twice. -/
+theorem C08_link_degree_C04 (w : Bool) (hm : C04.HMeta) (ops : List C04.Op) (hw : ∀ op ∈ ops, op.WF)
+    (f : C04.Filt) (g : Filt) (hg : ofFilt04 f = some g) :
+    let s := C04.run (C04.init w hm) ops
+    let N := nodes04 s
+    let K := keys04 s
+    N = AL.keys (C04.abs s).nodes ∧ K = AL.keys (C04.abs s).edges ∧
+    N.Nodup ∧ K.Nodup ∧ (∀ k ∈ K, k.1.Nodup ∧ ∀ x ∈ k.1, x ∈ N) ∧
+    (∀ n ∈ N, ∀ L : List (List Nat × Nat), L.Nodup →
+        (∀ k, k ∈ L ↔ k ∈ K ∧ passes g k.1.length = true ∧ n ∈ k.1) → C04.degree s n f = some L.length) ∧
+    (∀ n, n ∉ N → C04.degree s n f = none) ∧
+    C04.degreeSeq s f = some (N.map fun n => (n, degG (fun k : List Nat × Nat => k.1) K n g)) ∧
+    (N.map (fun n => degG (fun k : List Nat × Nat => k.1) K n g)).sum =
+      ((K.filter (fun k => passes g k.1.length)).map (fun k => k.1.length)).sum := by
+  intro s N K
+  have h : C04.Inv s := C04.run_inv _ ops (C04.inv_init w hm) hw
+  obtain ⟨l1, l2, l3⟩ := listing04 h
+  refine ⟨rfl, C04.records_abs s, l1, l2, l3, ?_, ?_, ?_, ?_⟩
+  · intro n hn L hL hmem
+    rw [degree04 h n f g hg]
+    exact C08_degree (fun k : List Nat × Nat => k.1) N K l2 n hn g L hL hmem
+  · intro n hn
+    rw [degree04 h n f g hg]
+    exact C08_degree_absent _ N K n hn g
+  · rw [degreeSeq04 h f g hg]
+    simp only [degreeSeqG, degG_toOrder]
+    rfl
+  · exact C08_handshake (fun k : List Nat × Nat => k.1) N K l1 l3 g
+
+/-- non-vacuity: `{1,2,3}` in layers 0 and 1, `{2,3}` in layer 0, a temporary record -/
+def C08.Link.exHistory04 : List C04.Op :=
+  [.addEdge [3, 1, 2] 0 none none, .addEdge [2, 3] 0 none none, .addEdge [2, 1, 3] 1 none none,
+   .addEdge [7, 8] 2 none none, .removeEdge [8, 7] 2, .addNode 5 none]
+
+example : (∀ op ∈ exHistory04, op.WF) ∧
+    (let s := C04.run (C04.init false) exHistory04
+     nodes04 s = [1, 2, 3, 7, 8, 5] ∧ keys04 s = [([1, 2, 3], 0), ([2, 3], 0), ([1, 2, 3], 1)] ∧
+     C04.degree s 2 .all = some 3 ∧ C04.degree s 2 (.size 3) = some 2 ∧ C04.degree s 1 (.order 1) = some 0 ∧
+     C04.degree s 6 .all = none ∧
+     C04.degreeSeq s (.size 2) = some [(1, 0), (2, 1), (3, 1), (7, 0), (8, 0), (5, 0)]) :=
+  ⟨by decide, by decide⟩
+
+/-! ### the history model of this file and C01's abstract hypergraph -/
+
+/-- **`C08_history_*` and C01, operation by operation.**  `Hist.Content` (`Hgxv/Model/C08Hist.lean`, the small history
+model used by `C08_history_wf / _frame / _handshake`) is C01's abstract hypergraph with weights and metadata forgotten:
+for the abstract hypergraph `a` of ANY history, `contentOf a` lists what the object lists, satisfies `Hist.Inv`, and every
+single-object operation of `Hist` is the corresponding call of `C01.Spec` on `a` - same resulting listings in the same
+order, and a call is rejected by C01 exactly when the `Hist` operation is `none`: `add_node`; `add_edge` with any optional
+arguments (always accepted without a weight); `remove_edge`; `remove_node(n, keep_edges)` for both values of
+`keep_edges`; `clear`.  (`Hist.Op.copy` appends a new object where `C01.Cmd.copy` overwrites a slot - both leave the
+content as it is; `Hist.sub` has no single C01 call.) -/
+theorem C08_link_hist_ops (k : Nat) (cs : List C01.Cmd) (hwf : ∀ c ∈ cs, c.WF) (i : Nat) (s : C01.Store)
+    (hs : (C01.run (C01.init k) cs)[i]? = some s) :
+    let a := C01.abs s
+    let c := contentOf a
+    c.nodes = nodesOf s ∧ c.es = edgesOf s ∧ Hist.Inv c ∧
+    (∀ n md, contentOf (C01.Spec.apply a (.addNode n md)).1 = Hist.addNode c n) ∧
+    (∀ raw w md, (C01.Spec.apply a (.addEdge raw w md)).2 = .ok →
+        contentOf (C01.Spec.apply a (.addEdge raw w md)).1 = Hist.addEdge c raw) ∧
+    (∀ raw md, (C01.Spec.apply a (.addEdge raw none md)).2 = .ok) ∧
+    (∀ raw, Hist.removeEdge c raw =
+        if (C01.Spec.apply a (.removeEdge raw)).2 = .ok then some (contentOf (C01.Spec.apply a (.removeEdge raw)).1)
+        else none) ∧
+    (∀ n keep, Hist.removeNode c n keep =
+        if (C01.Spec.apply a (.removeNode n keep)).2 = .ok
+        then some (contentOf (C01.Spec.apply a (.removeNode n keep)).1) else none) ∧
+    contentOf (C01.Spec.apply a .clear).1 = Hist.clear c := by
+  intro a c
+  have h := C08.Link.inv_of_history k cs hwf i s hs
+  obtain ⟨w1, w2, w3, w4, w5⟩ := listing_wf h
+  have e1 : c.nodes = nodesOf s := (listing_abs h).1.symm
+  have e2 : c.es = edgesOf s := (listing_abs h).2.symm
+  refine ⟨e1, e2, ⟨by rw [e1]; exact w1, by rw [e2]; exact w2, ?_, ?_⟩, fun n md => addNode_content a n md,
+    fun raw w md hok => addEdge_content a raw w md hok, fun raw md => addEdge_ok a raw md,
+    fun raw => removeEdge_content a raw, fun n keep => removeNode_verdict a (C01.abs_swf h) n keep, clear_content a⟩
+  · intro e he
+    rw [e2] at he
+    exact C08.Link.sorted_strict e (w4 e he) (w5 e he)
+  · intro e he x hx
+    rw [e2] at he
+    rw [e1]
+    exact w3 e he x hx
+
+/-- non-vacuity: on the abstract hypergraph of the example history (slot 0), `remove_node(3, keep_edges=True)` and
+`remove_edge` of an absent hyperedge, computed by `Hist` -/
+example : ((C01.run (C01.init 2) exHistory)[0]?.map fun s =>
+      (Hist.removeNode (contentOf (C01.abs s)) 3 true, Hist.removeEdge (contentOf (C01.abs s)) [1, 3])) =
+    some (some ⟨[0, 1, 2, 4, 5, 6], [[0, 1], [6], [1, 2], [4]]⟩, none) := by decide
